@@ -15,7 +15,7 @@
    only after an AssertionError of the dumper; yaml-set's JSON save and
    yaml-merge's writer truncated the file before serialising. *)
 From Coq Require Import List Bool Arith.
-From YP Require Import SaveProtocol SaveCli C17Spec SaveProofs.
+From YP Require Import SaveProtocol SaveCli C17Spec SaveProofs SaveProofs2.
 Import ListNotations.
 Import Sv Sc.
 
@@ -369,3 +369,130 @@ Example C17_ex_merge_trace :
           [Exists Target; Render true; Render true; Exists Bak; Copy2 Target Bak; OpenTrunc Target; WriteText Target]
           SOk.
 Proof. reflexivity. Qed.
+
+(* ======================================================================================== *)
+(* eyaml-rotate-keys dumps straight into the truncated file (`with open(yaml_file, 'w') as
+   yaml_dump: yaml.dump(yaml_data, yaml_dump)`, no handler, no restore): what a failing dump does. *)
+
+(* WITH --backup: the dump call fails (either mode, any class) - the target stays truncated /
+   half written, nothing restores it (unlike yaml-set), the .bak taken a moment ago holds the
+   complete original bytes, the run ends with a traceback.  "target or backup": the backup. *)
+Theorem C17_rotate_dump_failure_with_backup :
+  forall (ft : fault) (s : fs),
+    get s Target = Some Orig -> at_k ft = length (backup_ops s) + 1 ->
+    let o := save (CRotate true true) (Some ft) s in
+    get (o_fs o) Target = Some Partial /\ get (o_fs o) Bak = Some Orig /\ o_status o = SCrash
+    /\ get (o_fs o) Output = get s Output.
+Proof. exact rotate_dump_fault_with_backup. Qed.
+Print Assumptions C17_rotate_dump_failure_with_backup.
+
+(* WITHOUT --backup the same failure ALWAYS loses the file (the property text promises nothing
+   here: "when a backup was requested") ... *)
+Theorem C17_rotate_dump_failure_without_backup :
+  forall (m : fmode) (kd : fkind) (s : fs),
+    get s Target = Some Orig ->
+    let o := save (CRotate false true) (Some (mkfault 1 m kd)) s in
+    get (o_fs o) Target = Some Partial /\ get (o_fs o) Bak = get s Bak /\ o_status o = SCrash
+    /\ o_trace o = [OpenTrunc Target; Dump Target true].
+Proof. exact rotate_dump_fault_without_backup. Qed.
+Print Assumptions C17_rotate_dump_failure_without_backup.
+
+Theorem C17_rotate_no_backup_refuted :
+  exists (f : fault) (s : fs),
+    get s Target = Some Orig /\ ~ one_intact_copy (o_fs (save (CRotate false true) (Some f) s)).
+Proof.
+  exists (mkfault 1 Before FOs), (init_fs true true false). split; [reflexivity|].
+  intros [H|H]; vm_compute in H; discriminate H.
+Qed.
+
+(* ... and these are exactly the single failures that lose a file rotated without --backup: the
+   truncating open raising after it truncated, or the dump failing in any way *)
+Theorem C17_rotate_no_backup_losses :
+  forall (f : option fault) (s : fs),
+    get s Target = Some Orig -> get s Bak <> Some Orig ->
+    (failed (o_status (save (CRotate false true) f s)) /\ ~ one_intact_copy (o_fs (save (CRotate false true) f s))
+     <-> exists ft, f = Some ft /\ ((at_k ft = 0 /\ f_mode ft = Mid) \/ at_k ft = 1)).
+Proof. exact rotate_no_backup_losses. Qed.
+Print Assumptions C17_rotate_no_backup_losses.
+
+(* ---- close() as a call of its own; two failures outside yaml-set's restore path ------------- *)
+
+(* The analogue of C17_one_copy_survives_two_faults for the tools that write through a `with`
+   block and have no handler - yaml-merge --overwrite --backup, eyaml-rotate-keys --backup and
+   yaml-set's JSON save: ANY failing call (position, mode, class; or the serialiser's refusal)
+   AND THEN the implicit close() of the output handle failing too (before / half way through its
+   flush), or the close() failing on its own after every call completed - the target or its .bak
+   still holds the complete original bytes.  (Model: Sv.close_out / save_close.) *)
+Theorem C17_one_copy_survives_close_fault :
+  forall (c : cfg) (f : option fault) (m : option fmode) (s : fs),
+    cfg_backup c = true -> (forall b ok, c <> CSet b false ok) -> get s Target = Some Orig ->
+    one_intact_copy (o_fs (save_close c f m s)).
+Proof. exact close_one_copy_survives. Qed.
+Print Assumptions C17_one_copy_survives_close_fault.
+
+Theorem C17_merge_one_copy_survives_two_faults :
+  forall (json : bool) (ndocs : nat) (ok : bool) (f : option fault) (m : option fmode) (s : fs),
+    get s Target = Some Orig ->
+    one_intact_copy (o_fs (save_close (CMerge ToOverwrite true json ndocs ok) f m s)).
+Proof.
+  intros json n ok f m s H. apply close_one_copy_survives; [reflexivity | discriminate | exact H].
+Qed.
+Print Assumptions C17_merge_one_copy_survives_two_faults.
+
+Theorem C17_rotate_one_copy_survives_two_faults :
+  forall (f : option fault) (m : option fmode) (s : fs),
+    get s Target = Some Orig ->
+    one_intact_copy (o_fs (save_close (CRotate true true) f m s)).
+Proof.
+  intros f m s H. apply close_one_copy_survives; [reflexivity | discriminate | exact H].
+Qed.
+Print Assumptions C17_rotate_one_copy_survives_two_faults.
+
+(* a failing close() ends the run with a traceback (status 1) even when every call before it completed *)
+Theorem C17_close_failure_status :
+  forall (c : cfg) (m : option fmode) (s : fs),
+    (forall b ok, c <> CSet b false ok) -> closing_handle (o_trace (save c None s)) <> None -> m <> None ->
+    o_status (save_close c None m s) = SCrash.
+Proof. exact close_failure_status. Qed.
+Print Assumptions C17_close_failure_status.
+
+(* the --backup hypothesis is needed here too: yaml-merge --overwrite without --backup, every call
+   completes, close() fails half way through its flush *)
+Theorem C17_close_no_backup_refuted :
+  exists (c : cfg) (s : fs), cfg_backup c = false /\ get s Target = Some Orig /\
+    o_status (save c None s) = SOk /\
+    ~ one_intact_copy (o_fs (save_close c None (Some Mid) s)).
+Proof. exact close_no_backup_witness. Qed.
+
+(* non-vacuity: the write of yaml-merge --overwrite --backup fails half way (call 6 of 7) and then
+   the close() fails as well: the .bak holds the original; the rotation's dump fails with --backup *)
+Example C17_ex_merge_write_then_close_fail :
+  save_close (CMerge ToOverwrite true false 1 true) (Some (mkfault 6 Mid FOs)) (Some Mid) (init_fs true true false)
+  = mkout (mkfs (Some Partial) (Some Orig) None None)
+          [Exists Target; Render true; Exists Bak; Remove Bak; Copy2 Target Bak; OpenTrunc Target; WriteText Target]
+          SCrash.
+Proof. reflexivity. Qed.
+
+(* every call completes, then close() fails half way through its flush: status 1, the .bak is the pre-image *)
+Example C17_ex_merge_close_fails_alone :
+  save (CMerge ToOverwrite true false 1 true) None (init_fs true true false)
+  = mkout (mkfs (Some New) (Some Orig) None None)
+          [Exists Target; Render true; Exists Bak; Remove Bak; Copy2 Target Bak; OpenTrunc Target; WriteText Target] SOk
+  /\ save_close (CMerge ToOverwrite true false 1 true) None (Some Mid) (init_fs true true false)
+  = mkout (mkfs (Some Partial) (Some Orig) None None)
+          [Exists Target; Render true; Exists Bak; Remove Bak; Copy2 Target Bak; OpenTrunc Target; WriteText Target] SCrash.
+Proof. split; reflexivity. Qed.
+
+(* the backup copy itself is interrupted: no handle is open, close() is not called: the target is intact *)
+Example C17_ex_rotate_copy_fails_no_close :
+  save_close (CRotate true true) (Some (mkfault 1 Mid FOs)) (Some Mid) (init_fs true false false)
+  = mkout (mkfs (Some Orig) (Some Partial) None None) [Exists Bak; Copy2 Target Bak] SCrash.
+Proof. reflexivity. Qed.
+
+(* the hypotheses of C17_rotate_dump_failure_with_backup are met: over a stale .bak the dump is call 4 *)
+Example C17_ex_rotate_dump_fails_backup :
+  length (backup_ops (init_fs true true false)) + 1 = 4
+  /\ save (CRotate true true) (Some (mkfault 4 Mid FOther)) (init_fs true true false)
+     = mkout (mkfs (Some Partial) (Some Orig) None None)
+             [Exists Bak; Remove Bak; Copy2 Target Bak; OpenTrunc Target; Dump Target true] SCrash.
+Proof. split; reflexivity. Qed.
